@@ -17,9 +17,9 @@ import zlib
 
 from . import utf8ref, wire
 
-VALID_CLOSE = set([1000, 1001, 1002, 1003, 1007, 1008, 1009, 1010, 1011]) | set(range(3000, 5000))
+VALID_CLOSE = set([1000, 1001, 1002, 1003, 1007, 1008, 1009, 1010, 1011, 1012, 1013]) | set(range(3000, 5000))
 INVALID_CLOSE = (set(range(0, 1000)) | {1004, 1005, 1006, 1015} | set(range(1016, 3000)))
-# 1012, 1013, 1014 and >= 5000: not fixed by the property -> unspecified
+# 1014 and >= 5000: not fixed by the property -> unspecified
 
 
 class Interp(object):
